@@ -165,10 +165,39 @@ pub fn paste(w: &World, main_file: &str) -> Result<Flat, String> {
         let mut possible: Vec<String> = possible.to_vec();
         let mut stack: Vec<u32> = vec![];
         let mut next_id = 1u32;
-        for (i, line) in text.lines().enumerate() {
+        let all_lines: Vec<&str> = text.lines().collect();
+        // an include guard `.ifdef X` / `.exit` / `.endif` at the top level of a file: "the rest of
+        // this file unless X is defined" is, pasted, `.ifndef X` / rest / `.endif`
+        let mut guard_open = false;
+        let mut skip_to = 0usize;
+        let mut last_line = 0usize;
+        for (i, line) in all_lines.iter().copied().enumerate() {
+            if i < skip_to {
+                continue;
+            }
+            last_line = i + 1;
             let t = line.trim();
             if t == ".exit" && stack.is_empty() {
                 break; // ends this file only
+            }
+            if t == ".exit" {
+                // `.exit` inside a conditional in any other shape: pasting has no equivalent the
+                // model knows how to write down - the scenario is not judged
+                flat.ambiguous.push(format!("{}: .exit inside a conditional", file));
+            }
+            if stack.is_empty() && !guard_open && i + 2 < all_lines.len() && all_lines[i + 1].trim() == ".exit" && all_lines[i + 2].trim() == ".endif" {
+                if let Some(sym) = t.strip_prefix(".ifdef ") {
+                    out.push(format!(".ifndef {}", sym.trim()));
+                    flat.map.push((file.to_string(), i + 1));
+                    for k in 1..3 {
+                        out.push(String::new());
+                        flat.map.push((file.to_string(), i + 1 + k));
+                    }
+                    guard_open = true;
+                    skip_to = i + 3;
+                    last_line = i + 3;
+                    continue;
+                }
             }
             if t.starts_with(".if") || t.starts_with("#if") {
                 stack.push(next_id);
@@ -233,6 +262,10 @@ pub fn paste(w: &World, main_file: &str) -> Result<Flat, String> {
             out.push(line.to_string());
             flat.map.push((file.to_string(), i + 1));
         }
+        if guard_open {
+            out.push(".endif".to_string());
+            flat.map.push((file.to_string(), last_line.max(1)));
+        }
         Ok(())
     }
     go(w, main_file, &[], &[], &[], &mut flat, &mut out, 0)?;
@@ -250,5 +283,18 @@ mod tests {
         assert_eq!(join_norm("a", "../../c"), None);
         assert_eq!(join_norm("a/b", "$R/x y/z"), Some("x y/z".into()));
         assert_eq!(join_norm("", "f"), Some("f".into()));
+    }
+    #[test]
+    fn include_guard() {
+        let mut files = BTreeMap::new();
+        files.insert("m.asm".to_string(), ".include \"g.inc\"\n nop\n.include \"g.inc\"\n".to_string());
+        files.insert("g.inc".to_string(), ".ifdef G\n.exit\n.endif\n.define G\n inc r4\n".to_string());
+        let w = World { files: &files, cwd: "", caller: &[] };
+        let f = paste(&w, "m.asm").unwrap();
+        assert_eq!(f.text, ".ifndef G\n\n\n.define G\n inc r4\n.endif\n nop\n.ifndef G\n\n\n.define G\n inc r4\n.endif\n");
+        assert!(f.ambiguous.is_empty());
+        files.insert("g.inc".to_string(), ".ifdef G\n nop\n.exit\n.endif\n".to_string());
+        let w = World { files: &files, cwd: "", caller: &[] };
+        assert!(!paste(&w, "m.asm").unwrap().ambiguous.is_empty());
     }
 }
